@@ -1189,6 +1189,21 @@ def cols_attr(it, c, name):
         return nat(lambda it: c)
     if name == "T":
         return c
+    if name == "values":
+        return c
+    if name == "any":
+        def _any(it, axis=None, **k):
+            if axis == 1:
+                # per row: some column is truthy
+                def row_any(*es):
+                    acc = False
+                    for e in es:
+                        t = it.truth_sv(e)
+                        acc = t if acc is False else logic("|", acc, t)
+                    return acc
+                return elementwise(it, row_any, *[_arr(x) for x in c.cols])
+            raise EngineError("2-D any() over rows / all elements")
+        return nat(_any)
     if name == "sum":
         def _sum(it, axis=None, **k):
             from .sigma import sigma
